@@ -135,4 +135,86 @@ theorem len_readDir (es : List Info) : (readDirResult es).length = 8 + 529 * es.
 example : (decode (encBareReq Gen.proto_CmdReadDir ++ encPathReq Gen.proto_CmdStatFile [47])) =
     .req .readDir (encPathReq Gen.proto_CmdStatFile [47]) := consumes_readDir _
 
+/-! ### synchronisation over whole request sequences -/
+
+/-- a request as the protocol documents it on the wire -/
+def encReq : Req → Bytes
+  | .openDir p => encPathReq Gen.proto_CmdOpenDir p
+  | .readDir => encBareReq Gen.proto_CmdReadDir
+  | .readDirEntry => encBareReq Gen.proto_CmdReadDirEntry
+  | .readDirEntryV2 => encBareReq Gen.proto_CmdReadDirEntryV2
+  | .statFile p => encPathReq Gen.proto_CmdStatFile p
+  | .openFile p => encPathReq Gen.proto_CmdOpenFile p
+  | .readFile l o => encReadReq Gen.proto_CmdReadFile l o
+  | .readFileCritical l o => encReadReq Gen.proto_CmdReadFileCritical l o
+  | .readCD s c => encReadCDReq Gen.proto_CmdReadCD2048Critical s c
+  | .createFile p => encPathReq Gen.proto_CmdCreateFile p
+  | .writeFile _ payload => encWriteReq Gen.proto_CmdWriteFile payload
+  | .deleteFile p => encPathReq Gen.proto_CmdDeleteFile p
+  | .mkdir p => encPathReq Gen.proto_CmdMkdir p
+  | .rmdir p => encPathReq Gen.proto_CmdRmdir p
+  | .getDirSize p => encPathReq Gen.proto_CmdGetDirSize p
+
+/-- the field widths of the wire format -/
+def ReqWF : Req → Prop
+  | .openDir p | .statFile p | .openFile p | .createFile p | .deleteFile p | .mkdir p | .rmdir p | .getDirSize p =>
+      p.length < 65536
+  | .readFile l o | .readFileCritical l o => l < 2 ^ 32 ∧ o < 2 ^ 64
+  | .readCD s c => s < 2 ^ 32 ∧ c < 2 ^ 32
+  | .writeFile a payload => a = payload.length ∧ payload.length < 2 ^ 32
+  | .readDir | .readDirEntry | .readDirEntryV2 => True
+
+/-- decoding is a left inverse of encoding, whatever follows on the stream -/
+theorem decode_encReq (r : Req) (h : ReqWF r) (rest : Bytes) : decode (encReq r ++ rest) = .req r rest := by
+  cases r <;> simp only [encReq, ReqWF] at h ⊢
+  case openDir p => exact consumes_openDir p rest h
+  case readDir => exact consumes_readDir rest
+  case readDirEntry => exact consumes_readDirEntry rest
+  case readDirEntryV2 => exact consumes_readDirEntryV2 rest
+  case statFile p => exact consumes_statFile p rest h
+  case openFile p => exact consumes_openFile p rest h
+  case readFile l o => exact consumes_readFile l o rest h.1 h.2
+  case readFileCritical l o => exact consumes_readFileCritical l o rest h.1 h.2
+  case readCD s c => exact consumes_readCD s c rest h.1 h.2
+  case createFile p => exact consumes_createFile p rest h
+  case writeFile a payload => rw [h.1]; exact consumes_writeFile payload rest h.2
+  case deleteFile p => exact consumes_deleteFile p rest h
+  case mkdir p => exact consumes_mkdir p rest h
+  case rmdir p => exact consumes_rmdir p rest h
+  case getDirSize p => exact consumes_getDirSize p rest h
+
+/-- the abstract machine: requests handled one after the other until one ends the connection -/
+def runSteps (cfg : Cfg) : World → State → List Req → Bytes → Nat → World × State × Bytes × Nat
+  | w, st, [], acc, used => (w, st, acc, used)
+  | w, st, r :: rest, acc, used =>
+    let o := step cfg w st r
+    if o.2.2.close then (o.1, o.2.1, acc ++ o.2.2.bytes, used + (encReq r).length)
+    else runSteps cfg o.1 o.2.1 rest (acc ++ o.2.2.bytes) (used + (encReq r).length)
+
+/-- **Client and server never lose synchronisation**: for every sequence of requests, sent back to
+    back as one byte stream, the serve loop handles exactly those requests in order — each decoded
+    from exactly its own bytes, each answered by exactly its handler's response — and stops only
+    where a handler ends the connection; the bytes consumed are exactly the requests handled. -/
+theorem serve_sync (cfg : Cfg) (rs : List Req) (hwf : ∀ r ∈ rs, ReqWF r) :
+    ∀ (fuel : Nat) (w : World) (st : State) (acc : Bytes) (used : Nat), rs.length < fuel →
+      serve cfg fuel w st (rs.map encReq).flatten acc used = runSteps cfg w st rs acc used := by
+  induction rs with
+  | nil =>
+    intro fuel w st acc used hf
+    obtain ⟨f, rfl⟩ : ∃ f, fuel = f + 1 := ⟨fuel - 1, by simp at hf; omega⟩
+    have := truncated_closes cfg f w st [] acc used (short_is_incomplete [] (by simp))
+    simpa [runSteps] using this
+  | cons r rest ih =>
+    intro fuel w st acc used hf
+    obtain ⟨f, rfl⟩ : ∃ f, fuel = f + 1 := ⟨fuel - 1, by simp at hf; omega⟩
+    simp only [List.map_cons, List.flatten_cons]
+    rw [serve_one cfg f w st _ acc used r _ (decode_encReq r (hwf r List.mem_cons_self) _)]
+    have hlen : (encReq r ++ (rest.map encReq).flatten).length - ((rest.map encReq).flatten).length = (encReq r).length := by
+      rw [List.length_append]; omega
+    rw [hlen]
+    simp only [runSteps]
+    split
+    · rfl
+    · exact ih (fun x hx => hwf x (List.mem_cons_of_mem _ hx)) f _ _ _ _ (by simp at hf; omega)
+
 end Ps3.Props.C03
